@@ -560,3 +560,73 @@ def stmt_paths(stmts: List[ast.stmt], max_paths: int = 4096) -> List[Path]:
 
     seq(list(stmts), [], [])
     return out
+
+
+# --------------------------------------------------------------------------- finite truth tables over guard atoms
+def bool_atoms(node) -> List[str]:
+    """texts of the atomic conditions (comparisons, names, calls ...) of the tests found in a statement list / expression"""
+    out = []
+
+    def atoms_of(e):
+        if isinstance(e, ast.BoolOp):
+            for v in e.values:
+                atoms_of(v)
+        elif isinstance(e, ast.UnaryOp) and isinstance(e.op, ast.Not):
+            atoms_of(e.operand)
+        elif isinstance(e, ast.IfExp):
+            atoms_of(e.test)
+            atoms_of(e.body)
+            atoms_of(e.orelse)
+        elif isinstance(e, ast.Constant):
+            pass
+        else:
+            t = ast.unparse(e)
+            if t not in out:
+                out.append(t)
+    nodes = node if isinstance(node, list) else [node]
+    for n in nodes:
+        for x in ast.walk(n):
+            if isinstance(x, (ast.If, ast.While)):
+                atoms_of(x.test)
+    return out
+
+
+def eval_bool(e, val: dict):
+    """truth value of a test under a valuation of its atoms (None when an atom is missing)"""
+    if isinstance(e, ast.BoolOp):
+        vs = [eval_bool(v, val) for v in e.values]
+        if any(v is None for v in vs):
+            return None
+        return all(vs) if isinstance(e.op, ast.And) else any(vs)
+    if isinstance(e, ast.UnaryOp) and isinstance(e.op, ast.Not):
+        v = eval_bool(e.operand, val)
+        return None if v is None else not v
+    if isinstance(e, ast.IfExp):
+        c = eval_bool(e.test, val)
+        return None if c is None else eval_bool(e.body if c else e.orelse, val)
+    if isinstance(e, ast.Constant):
+        return bool(e.value)
+    return val.get(ast.unparse(e))
+
+
+def outcome_under(stmts, val: dict):
+    """('fall' | 'return' | 'continue' | 'break' | 'raise' | 'unknown', exit statement) of a block of if-trees under a valuation"""
+    for st in stmts:
+        if isinstance(st, ast.If):
+            c = eval_bool(st.test, val)
+            if c is None:
+                return "unknown", st
+            k, s = outcome_under(st.body if c else st.orelse, val)
+            if k != "fall":
+                return k, s
+        elif isinstance(st, ast.Return):
+            return "return", st
+        elif isinstance(st, ast.Continue):
+            return "continue", st
+        elif isinstance(st, ast.Break):
+            return "break", st
+        elif isinstance(st, ast.Raise):
+            return "raise", st
+        elif isinstance(st, (ast.For, ast.While, ast.Try, ast.With)):
+            return "unknown", st
+    return "fall", None
